@@ -35,7 +35,7 @@ func (c *Ctx) selWalker() *ssa.Function {
 				}
 			}
 		}
-		if n >= 2 && (best == nil || f.Pos() < best.Pos()) {
+		if n >= 2 && (best == nil || fnName(f) < fnName(best)) {
 			// must also call the directive evaluator
 			if c.callTo(f, c.skipEval()) != nil {
 				best = f
